@@ -44,6 +44,20 @@ pub fn panic_sig(p: &str) -> String {
     format!("panic:{prefix}{loc}:{msg}")
 }
 
+/// Options under which the material a mutation inserted is actually processed.
+fn bias_opts(c: &mut Choices<'_>, muts: &[&str], opts: &mut crate::fmt::Opts) {
+    let has = |o: &crate::fmt::Opts, k: &str| o.iter().any(|(a, _)| a == k);
+    if muts.contains(&"markdown-comment") && c.flip() && !has(opts, "wrap_comments") {
+        opts.push(("wrap_comments".into(), "true".into()));
+    }
+    if muts.contains(&"odd-literal") && c.chance(1, 3) {
+        let (k, v) = *c.pick(&[("indent_style", "Visual"), ("float_literal_trailing_zero", "Always"), ("format_strings", "true"), ("hex_literal_case", "Upper")]);
+        if !has(opts, k) {
+            opts.push((k.into(), v.into()));
+        }
+    }
+}
+
 fn nesting(c: &mut Choices<'_>) -> String {
     // ordinary nesting up to depth 64
     let depth = c.range(8, 64);
@@ -83,7 +97,7 @@ impl Property for C16 {
         }
     }
     fn rule(&self) -> &'static str {
-        "corpus chunks / generated programs under token-level mutation (delete, duplicate, swap, truncate, delimiter imbalance, splice, non-ASCII) or arbitrary re-layout, nesting to depth 64, random configuration with max_width>=20 and >=5*tab_spaces; oracle: Session::format and report rendering return normally in a worker with overflow checks on (a worker death is a violation); non-trivial = the text has >=5 tokens and differs from the corpus text; distinct by case content"
+        "corpus chunks / generated programs under token-level mutation (delete, duplicate, swap, truncate, delimiter imbalance, splice, non-ASCII incl. wide white space, multi-byte identifiers, odd but lexable literals, markdown doc comments; the options that process the inserted material are switched on half of the time) or arbitrary re-layout, nesting to depth 64, random configuration with max_width>=20 and >=5*tab_spaces; oracle: Session::format and report rendering return normally in a worker with overflow checks on (a worker death is a violation); non-trivial = the text has >=5 tokens and differs from the corpus text; distinct by case content"
     }
     fn assumptions(&self) -> Vec<&'static str> {
         vec![
@@ -111,6 +125,7 @@ impl Property for C16 {
             (cell.src.text.clone(), vec!["relayout"])
         };
         let mut opts = cell.opts.clone();
+        bias_opts(&mut c, &muts, &mut opts);
         if c.chance(1, 3) {
             opts.push(("error_on_line_overflow".into(), "true".into()));
             if c.flip() {
@@ -140,6 +155,7 @@ impl Property for C16 {
             _ => (nesting(c), "nesting".into(), vec!["nesting"]),
         };
         let mut opts = gen_conf(c, &space);
+        bias_opts(c, &muts, &mut opts);
         if c.chance(1, 3) {
             opts.push(("error_on_line_overflow".into(), "true".into()));
             if c.flip() {
